@@ -644,7 +644,7 @@ impl Sess {
                     let before = m.bus().clone();
                     let v = m.bus().read(a);
                     let pure = *m.bus() == before;
-                    let determined = a <= 0xF0 || a >= 0xFC;
+                    let determined = a <= 0xF0 || a >= 0xFC || a == 0xF9;
                     format!(
                         "{} {}",
                         if determined { v.to_string() } else { "-".into() },
@@ -661,15 +661,20 @@ impl Sess {
                 _ => bad(),
             },
             ["spec.di1", v] => byte(v).map(|v| { m.set_digital_input1(v); ok() }).unwrap_or_else(bad),
+            ["spec.irq"] => {
+                m.trigger_key_interrupt();
+                ok()
+            }
             ["spec.busd"] => {
                 let bus = m.bus();
                 let b = bus.verif_state();
                 format!(
-                    "ram={} out={}{} in={}{}{}{} mask={} do={}{} di={}",
+                    "ram={} out={}{} in={}{}{}{} mask={} status={} do={}{} di={}",
                     fnv(&bus.memory()[..]),
                     hex2(bus.output_fe()), hex2(bus.output_ff()),
                     hex2(b.input_reg[0]), hex2(b.input_reg[1]), hex2(b.input_reg[2]), hex2(b.input_reg[3]),
                     hex2(b.micr),
+                    hex2(bus.read(0xF9)),
                     hex2(*bus.board().digital_output1()), hex2(*bus.board().digital_output2()),
                     hex2(*bus.board().digital_input1())
                 )
